@@ -20,7 +20,7 @@ def one(d):
     p = subprocess.run([os.path.join(V, "tools", "sandbox_eval.sh"), "rg-" + sid, os.path.join(d, "patch.diff"), prop],
                        stdout=subprocess.PIPE, stderr=subprocess.STDOUT, text=True, timeout=7200)
     line = next((l for l in p.stdout.splitlines() if l.startswith("rg-" + sid + " " + prop)), "")
-    reported = " rc=1 " in line and "VIOLATION" in line
+    reported = " rc=1 " in line      # exit status 1 is given for a VIOLATION line only
     m["final"] = dict(check=prop, reported=reported, line=line[:200])
     if reported and not m.get("ran", {}).get("detected_by"):
         m["first_missed"] = True
